@@ -347,6 +347,33 @@ def splice_fn(repo, file, item_path, sections, trait=None, nth=0, opts=(), canar
     body_close = item.end_idx
     loops = rs.loops_in(toks, body_open, body_close)
     used = 0
+    if 'for_as_while_let' in opts:
+        # X2c: `for PAT in EXPR { BODY }` written as the loop the language defines it to be,
+        # `{ let mut it = (EXPR).into_iter(); while let Some(PAT) = it.next() { BODY } }` (Verus has no `continue` in `for`)
+        for n, (kw, lopen, lclose) in enumerate(loops):
+            if toks[kw].text != 'for':
+                continue
+            k, in_idx = kw + 1, None
+            while k < lopen:
+                if toks[k].kind == 'open':
+                    k = rs.match_close(toks, k) + 1
+                    continue
+                if toks[k].kind == 'ident' and toks[k].text == 'in':
+                    in_idx = k
+                    break
+                k += 1
+            if in_idx is None:
+                raise AnchorLost('for-loop header without `in`')
+            pat = ' '.join(''.join(t.text for t in toks[kw + 1:in_idx]).split())
+            code = [j for j in range(in_idx + 1, lopen) if toks[j].kind not in ('ws', 'comment', 'doc')]
+            if not code:
+                raise AnchorLost('for-loop header without an iterator expression')
+            ed.blank(kw, in_idx)
+            ed.ins_before(code[0], '{ let mut cv_it%d = (' % n)
+            ed.ins_after(code[-1], ').into_iter(); while let Some(%s) = cv_it%d.next() ' % (pat, n))
+            ed.ins_after(lclose, ' }')
+            rules['X2c-for'] = rules.get('X2c-for', 0) + 1
+            dropped.append('%s:%d `for %s in ..` written as `while let Some(%s) = it.next()` over `.into_iter()` (X2c)' % (file, toks[kw].line, pat, pat))
     # X7 statement abstraction: `//@replace K` holds the exact source text of one or more statements (compared
     # token by token, whitespace and comments ignored); `//@with K` the environment call that stands for them.
     # The replaced text is an ASSUMED part of the function (listed in evidence); a change to it loses the anchor.
